@@ -21,23 +21,21 @@ BUF = 1024
 
 
 def classify(reqs, script):
-    """'supported' | 'head_split' | 'coalesced' for a segmentation of the concatenation of reqs = [(head, body)]"""
-    starts, pos = [], 0
-    for h, b in reqs:
-        starts.append((pos, len(h), len(h) + len(b))); pos += len(h) + len(b)
-    bounds, p = set(), 0
+    """'supported' | 'head_split' | 'coalesced' for a segmentation of the concatenation of reqs = [(head, body)].
+    Read discipline (the documented limits of Request::read): a request is started by ONE read of at most BUF bytes, which returns what is left of the
+    segment it falls in; the part of the body that read did not bring is then read exactly (any number of reads, never beyond the body).  So a request
+    starts at a read boundary iff the starting read of the previous one did not reach beyond that request's end."""
+    ends, p = [], 0
     for c in script:
-        bounds.add(p); p += len(c)
-    cls = 'supported'
-    for s, hl, tl in starts:
-        if s not in bounds: return 'coalesced'
-        # the read that starts at s returns min(BUF, len of that chunk)
-        p = 0
-        for c in script:
-            if p == s:
-                if min(BUF, len(c)) < hl: cls = 'head_split'
-                break
-            p += len(c)
+        p += len(c); ends.append(p)
+    cls, pos = 'supported', 0
+    for h, b in reqs:
+        s, hl, tl = pos, len(h), len(h) + len(b)
+        seg_end = next((e for e in ends if e > s), s)
+        r_end = s + min(BUF, seg_end - s)                     # the starting read brings [s, r_end)
+        if r_end < s + hl: cls = 'head_split'
+        pos = s + tl
+        if r_end > pos and pos < ends[-1]: return 'coalesced'          # bytes of the next request came with it
     return cls
 
 
